@@ -534,6 +534,7 @@ def verify_unit(target, enum_assign, opts=None):
     px = PathExec(eng)
     st = State()
     env = entry_env(ct, enum_assign)
+    env0 = dict(env)
     st.env = dict(env)
     st.entry = dict(env)
     frame = fi.glob_frame()
@@ -568,6 +569,7 @@ def verify_unit(target, enum_assign, opts=None):
         if sig in (RET, NEXT):
             nret += 1
             res = val if sig == RET else ConstV(None)
+            env = st2.entry          # entry values (input symbols made concrete by case splits)
             env2 = dict(env)
             env2['result'] = res
             p = Pure(eng, st2, env2, ct.func.__globals__, True, TRUE, lineno)
@@ -605,6 +607,7 @@ def verify_unit(target, enum_assign, opts=None):
                 # definitional constraints added while evaluating the clause live in st2.pc
         elif sig == RAISE:
             ename = val.name()
+            env = st2.entry
             if ename in ct.raises:
                 p = Pure(eng, st2, dict(env), ct.func.__globals__, True, TRUE, lineno)
                 fn = ct.raises[ename]
@@ -646,7 +649,7 @@ def verify_unit(target, enum_assign, opts=None):
         rec['rlimit_used'] = info.get('rlimit_used')
         if status == 'sat':
             m = info['model']
-            args = {k: val_to_py(v, m) for k, v in env.items()}
+            args = {k: val_to_py(v, m) for k, v in env0.items()}
             rec['model_args'] = args
             rec['replay'] = replay(ct, args, ob.clause, ob.kind)
         elif status == 'unknown':
